@@ -11,8 +11,9 @@ def extract(ctx):
     """regenerate lean/Ecal/Gen/C20.lean (buffer geometry, marker assembly, skip table, call of
     RunPackedBinary in main) from cli/tool/pack.go and cli/ecal.go of the tree under test with the
     harness's go/ast extractor, and build the real CLI executable for the process cases.
-    A source the extractor cannot translate is NOT a check error: the generated file then carries
-    `extractProblems` (obligation extract_complete breaks) and reference values, the sweep runs."""
+    A source the extractor cannot translate is neither a check error nor an alarm: the generated file
+    then carries `extractProblems` and reference values, the problems go into the evidence (notes) and
+    the generator amplifies the sweep; only a real disagreement / fall / fail is a violation."""
     binp = checklib.go_build(ctx)
     previous = open(GEN).read() if os.path.exists(GEN) else None
     if previous is not None:
@@ -29,6 +30,11 @@ def extract(ctx):
         txt = re.sub(r"def extractProblems : List String := \[.*\]", 'def extractProblems : List String := ["%s"]' % msg, previous)
         open(GEN, "w").write(txt)
     facts = open(GEN).read()
+    import re
+    m = re.search(r"def extractProblems : List String := \[(.*)\]", facts)
+    if m and m.group(1).strip():
+        ctx.notes.append("C20 extractor: NOT TRANSLATED (reference values used, sweep amplified to the thorough one): " + m.group(1))
+        ctx.log("NOT TRANSLATED:", m.group(1))
     ctx.log("extracted:", " ".join(l.strip() for l in facts.splitlines()
                                    if l.startswith("def ") and "skipTable" not in l and "markerPieces" not in l))
     p = subprocess.run([binp, "C20", "-tool", "buildcli", os.path.join(ctx.work, "ecal-cli")], stdout=subprocess.PIPE,
